@@ -21,7 +21,16 @@ def handleLabel2 (toks : List String) : Option String := do
   match labelClasses (α := Float) y with
   | .error .tooMany => some "err TooManyClasses"
   | .error .tooFew => some "err TooFewClasses"
-  | .ok r => some s!"ok pos={r.pos} neg={r.neg} t={showList showInt r.target}"
+  | .ok r =>
+    let cp := (y.filter (· == r.pos)).length
+    let cn := (y.filter (· == r.neg)).length
+    if cp == cn then
+      -- equally frequent classes: compared up to the swap of positive/negative (targets start with +1)
+      let t := match r.target with
+        | a :: _ => if a < 0 then r.target.map (fun v => -v) else r.target
+        | [] => r.target
+      some s!"ok tie classes={min r.pos r.neg},{max r.pos r.neg} t={showList showInt t}"
+    else some s!"ok pos={r.pos} neg={r.neg} t={showList showInt r.target}"
 
 def handleLabelM (toks : List String) : Option String := do
   let y ← argNats toks "y"
@@ -128,6 +137,22 @@ def handleLink (toks : List String) : Option String := do
   let l ← parseLink toks; let v ← argF64s toks "v"
   some s!"ok inv={tfs (v.map (Glm.linkInverse l))} der={tfs (v.map (Glm.linkInverseDeriv l))}"
 
+def lb7 : Float := 1e-7
+
+def handleLinkF (toks : List String) : Option String := do
+  let l ← parseLink toks; let v ← argF64s toks "v"
+  some s!"ok link={tfs (v.map (Glm.linkFn l))} der={tfs (v.map (Glm.linkFnDeriv lb7 l))}"
+
+/-- `deflink power=..`: index of the link `TweedieRegressorValidParams::link()` selects when none was set -/
+def handleDefLink (toks : List String) : Option String := do
+  let power ← argF64 toks "power"
+  -- `ParamGuard::check`: powers strictly between 0 and 1 are rejected before a link is selected
+  if 0 < power && power < 1 then some "err InvalidTweediePower" else
+  match Glm.defaultLink power with
+  | .identity => some "ok 0"
+  | .log => some "ok 1"
+  | .logit => some "ok 2"
+
 def handleGCost (toks : List String) : Option String := do
   let l ← parseLink toks
   let power ← argF64 toks "power"; let alpha ← argF64 toks "alpha"
@@ -166,6 +191,8 @@ def handle (toks : List String) : String :=
     | "dev" :: rest => handleDev rest
     | "ddev" :: rest => handleDDev rest
     | "link" :: rest => handleLink rest
+    | "linkf" :: rest => handleLinkF rest
+    | "deflink" :: rest => handleDefLink rest
     | "gcost" :: rest => handleGCost rest
     | "ggrad" :: rest => handleGGrad rest
     | "gpredict" :: rest => handleGPredict rest
